@@ -154,6 +154,13 @@ def ttsvd(E, s):
         rl = rmax[1:-1] if isinstance(rmax, list) else [rmax]
         if all(r >= maxrank for r in rl):
             E.true('accuracy', bound_ok)
+    if rmax is not None:
+        # a cap binds only where it is reached: if every returned rank stays below its cap, the truncation was decided by eps alone
+        caps = [(kw['rmax'] if rmax == 'sym' else (rmax[k] if isinstance(rmax, list) else rmax)) for k in range(1, d)]
+        reached = False
+        for k in range(1, d):
+            reached = _or(reached, R[k] >= caps[k - 1])
+        E.true('accuracy_when_no_cap_is_reached', _or(reached, bound_ok))
 
 
 def _all_index(shape):
